@@ -347,7 +347,9 @@ class Taint:
             if isinstance(fn, ast.Name):
                 if fn.id in SET_CTORS:
                     return True
-                if fn.id in ("sorted", "natsorted") and not key_is_total(e, getattr(f, "node", None)):
+                if fn.id in ("sorted", "natsorted") and not (
+                        key_is_total(e, getattr(f, "node", None))
+                        or key_is_total(e, getattr(getattr(f, "module", None), "tree", None))):
                     # a key with ties leaves tied items in the order they came in
                     return any(self.is_tainted(a, f, tainted) for a in e.args)
                 if fn.id in ("sorted", "natsorted"):
